@@ -321,6 +321,31 @@ def curated_chains():
                                                     [('rule', 'Item', None, ('alt', [('str', 'd'), ('super', 'Item')]))]]))
     out.append(('class-override', 'none', [A + [('rule', 'P', None, ('seq', [('str', '@'), ('ref', 'Pt')]))],
                                            [('class', 'Pt', None, [('field', 'x', ('ref', 'Item')), ('field', 'z', ('str', '^'))])]]))
+    # an override that changes what the generator can know statically about the rule it replaces: a
+    # token (cannot fail after consuming) becomes a sequence that can; a rule that always succeeds
+    # becomes one that can fail; a rule that must consume becomes one that may match nothing --
+    # referenced from inherited rules as non-last alternative, repetition element, list element /
+    # separator, Skip operand and lookahead
+    ST = [('rule', 'start', None, ('plus', ('ref', 'Value'))),
+          ('rule', 'Value', None, ('alt', [('ref', 'Num'), ('ref', 'Word')])),
+          ('rule', 'Num', None, ('str', 'a')),
+          ('rule', 'Word', None, ('re', '[ab]', False)),
+          ('rule', 'Many', None, ('seq', [('star', ('ref', 'Num')), ('star', ('ref', 'Word'))])),
+          ('rule', 'Lst', None, ('seq', [('sep', ('ref', 'Num'), ('str', ','), {'_op': '//'}), ('star', ('ref', 'Word'))])),
+          ('rule', 'Sk', None, ('seq', [('skip', [('ref', 'Num')]), ('star', ('ref', 'Word'))])),
+          ('rule', 'Opt', None, ('seq', [('opt', ('ref', 'Num')), ('star', ('ref', 'Word'))])),
+          ('rule', 'Look', None, ('seq', [('alt', [('right', ('expect', ('ref', 'Num')), ('str', 'a')), ('ref', 'Word')]), ('star', ('ref', 'Word'))])),
+          ('rule', 'Maybe', None, ('opt', ('str', 'b'))),
+          ('rule', 'UseMaybe', None, ('alt', [('seq', [('ref', 'Maybe'), ('str', 'a')]), ('re', '[ab]*', False)]))]
+    out.append(('static-token-to-sequence', 'none', [ST, [('rule', 'Num', None, ('seq', [('str', 'a'), ('str', 'b'), ('str', 'a')]))]]))
+    out.append(('static-token-to-sequence-3', 'none', [ST, [('rule', 'Extra', None, ('str', '#'))],
+                                                       [('rule', 'Num', None, ('seq', [('str', 'a'), ('str', 'b'), ('str', 'a')]))]]))
+    out.append(('static-infallible-to-fallible', 'none', [ST, [('rule', 'Maybe', None, ('seq', [('str', 'b'), ('str', 'b')]))]]))
+    # the start rule that a derived grammar inherits is a class
+    CS = [('class', 'start', None, [('field', 'items', ('star', ('ref', 'Item'))), ('field', 'end', ('opt', ('str', '!')))]),
+          ('rule', 'Item', None, ('alt', [('str', 'a'), ('str', 'b')]))]
+    out.append(('class-start-inherited', 'none', [CS, [('rule', 'Item', None, ('alt', [('str', 'c'), ('super', 'Item')]))]]))
+    out.append(('class-start-inherited-3', 'none', [CS, [('rule', 'Extra', None, ('str', '#'))], [('rule', 'Item', None, ('alt', [('str', 'c'), ('super', 'Item')]))]]))
     sp = ('irule', 'Space', ('re', ' +', False))
     an = ('ignore', ('re', ' +', False))
     un = ('ignore', ('str', '_'))
@@ -332,6 +357,7 @@ def curated_chains():
     out.append(('ignore-both', 'both', [[sp] + A, B_super_item + [un]]))
     out.append(('ignore-both-anon', 'both-anon', [[an] + A, B_super_item + [un]]))
     out.append(('ignore-three', 'three', [[sp] + A, B_super_item + [un], [('rule', 'Item', None, ('alt', [('str', 'd'), ('super', 'Item')])), ti]]))
+    out.append(('class-start-inherited-ignore', 'base-named', [[sp] + CS, [('rule', 'Item', None, ('alt', [('str', 'c'), ('super', 'Item')]))]]))
     out.append(('ignore-three-gap', 'three', [[sp] + A, B_super_item, [('rule', 'Extra', None, ('str', '#')), ti]]))
     return out
 
